@@ -12,14 +12,16 @@
      accept callback ; [refused: rmdir]
      accepted: shared memory transport: chown the directory to the authorised ids
                (the socket transport does not: KF_DirNotRechowned) ;
-     per file: create 0600 with the server's ids (KF_CreateMode: whatever mode was
-               chosen) ; chown to the authorised ids ; chmod to the chosen mode.
-   The two KF_ predicates name the triggers of the recorded findings; the
-   registered configuration excludes exactly them (CONSTRAINT), the *_asfound
-   configurations keep them and must yield the counterexamples.              *)
+     per file: create with the owner's read/write bits of the chosen mode (chosen & 0600) and the
+               server's ids ; chown to the authorised ids ; chmod to the chosen mode.
+               (As found, every file was created 0600 whatever mode was chosen: CreateAsFound = TRUE, the
+               *_asfound configuration, which must still yield the counterexample; KF-C05-3, repaired.)
+   The KF_ predicates name the triggers of findings that were recorded and have been repaired; the registered
+   configurations exclude nothing.                                              *)
 EXTENDS IpcAdmit
 
-CONSTANTS Uids, Gids, Modes, Errs, ShmFiles, SockFiles, SrvUid, SrvGid
+CONSTANTS Uids, Gids, Modes, Errs, ShmFiles, SockFiles, SrvUid, SrvGid,
+          CreateAsFound    \* TRUE: files are created 0600 (the code before KF-C05-3 was repaired)
 
 VARIABLES pc,    \* [Clients -> 0..8] position of the server in k's handshake
           fs     \* [Clients -> [file class -> 0 absent, 1 created, 2 chowned, 3 chmoded, 4 removed]]
@@ -49,6 +51,10 @@ KF_CreateMode      == \E k \in Clients : cl[k].st \in {"acc", "est"} /\ ~SubMode
 NoKF == ~KF_DirNotRechowned /\ ~KF_CreateMode
 NoKF_Dir  == ~KF_DirNotRechowned
 NoKF_Mode == ~KF_CreateMode
+
+(* the mode a file is created with: the owner's read and write bits of the chosen mode (open(..., mode & 0600)) *)
+OwnerRW(m) == LET o == (m \div 64) % 8 IN 64 * (4 * ((o \div 4) % 2) + 2 * ((o \div 2) % 2))
+CreateMode(k) == IF CreateAsFound THEN OwnerOnly ELSE OwnerRW(Chosen(k))
 
 MInit == Init /\ pc = [k \in Clients |-> 0] /\ fs = [k \in Clients |-> [f \in ShmFiles \cup SockFiles |-> 0]]
 
@@ -89,7 +95,7 @@ MRechownDir(k) ==
 MCreate(k, f) ==
   /\ cl[k].st = "acc" /\ pc[k] = 5 /\ f \in Files /\ fs[k][f] = 0
   /\ fs' = [fs EXCEPT ![k][f] = 1]
-  /\ Observe(res \cup {<<k, f, srv[1], srv[2], OwnerOnly>>})
+  /\ Observe(res \cup {<<k, f, srv[1], srv[2], CreateMode(k)>>})
   /\ UNCHANGED pc
 MChown(k, f) ==
   /\ pc[k] = 5 /\ f \in Files /\ fs[k][f] = 1
